@@ -26,6 +26,12 @@ theorem c22_inject_at_marks (f f' : Func) (idx : Nat) (m : Mode) (t : Tok)
     (h : apply f (.injectAtRaw idx m t) = some f') : f'.hasSpecial = true :=
   injectAt_special_marks f f' idx m t hm h
 
+/-- … and through `add_instr_at` called directly on a function modifier -/
+theorem c22_add_instr_at_marks (f f' : Func) (idx : Nat) (t : Tok) (x : Instr) (hx : f.body[idx]? = some x)
+    (hm : x.mode = some .semanticAfter ∨ x.mode = some .blockEntry ∨ x.mode = some .blockExit ∨ x.mode = some .blockAlt)
+    (h : apply f (.addInstrAt idx t) = some f') : f'.hasSpecial = true :=
+  addInstrAt_special_marks f f' idx t x hx hm h
+
 /-- function entry / exit injections are recorded in the function-level list and mark the function -/
 theorem c22_function_level_marks (f f' : Func) (idx : Nat) (t : Tok) (fm : FMode) (hf : f.fmode = some fm)
     (h : apply f (.inject idx t) = some f') :
